@@ -1673,8 +1673,8 @@ class CPF( dfa ):
 
         # If we don't recognize the CPF item type, just parse remainder into .input (so we could re-generate)
         ilen[None]	= urec	= octets( 	'unrecognized',	context=None,
+                                                repeat='.length',
                                                 terminal=True )
-        urec[True]		= urec
 
         # Each item is collected into '.item__', 'til no more input available, and then moved into
         # place into '.item' (init to [])
